@@ -13,7 +13,7 @@ var crashKeys = [][]byte{[]byte("a"), []byte("b"), nil, collisionPairs[0][0], co
 func genCrashOp(t *rapid.T, e *CrashEnv, lastTS *int64) COp {
 	m := e.M
 	kinds := []string{"publish", "publish", "publish", "publish", "publish", "publish", "publish", "publish", "delete", "delete", "delete", "delete", "delete",
-		"reopen", "reopen-recover", "reopen-migrate", "rmindex-reopen", "pkg-migrate", "pkg-recover", "sync", "gc"}
+		"reopen", "reopen-recover", "reopen-migrate", "rmindex-reopen", "reopen-switch", "reopen-switch", "pkg-migrate", "pkg-migrate", "pkg-recover", "sync", "gc"}
 	if e.C.Power {
 		kinds = append(kinds, "sync", "sync", "sync", "publish", "publish")
 	}
@@ -87,6 +87,15 @@ func genCrashOp(t *rapid.T, e *CrashEnv, lastTS *int64) COp {
 		return COp{Kind: "delete", Offsets: sortedOffsets(set)}
 	case "reopen-migrate", "pkg-migrate":
 		return COp{Kind: k, ToV1: !e.CurV1 || uni(t, 4, "same") == 0}
+	case "reopen-switch":
+		names, _ := listLogs(e.Dir)
+		var rm []string
+		for _, n := range names {
+			if rapid.Bool().Draw(t, "rm") {
+				rm = append(rm, strings.TrimSuffix(n, ".log")+".index")
+			}
+		}
+		return COp{Kind: k, ToV1: !e.CurV1, RmIdx: rm}
 	case "rmindex-reopen":
 		names, _ := listLogs(e.Dir)
 		var rm []string
